@@ -128,6 +128,41 @@ fn apply(img: &mut Vec<u8>, e: &Ev) {
     }
 }
 
+/// S5 tie of the redb COMMIT-PROTOCOL model (lean/Lumina/Model/RedbCommit.lean) to the real redb:
+/// the shape of the backend events ONE store operation issued.  Per sync epoch: `P` if it has
+/// data-page writes (offset != 0), one `H` per header write (offset 0, 320 bytes = redb's
+/// DB_HEADER_SIZE: god byte + both commit slots), `X` per other write at offset 0, then `S` for
+/// the `sync_data` closing it (a trailing epoch without sync has no `S`).  `set_len` (file growth /
+/// shrinking) is not part of the protocol model and is left out.  `-` = no event at all.  The
+/// driver prints the shape the model's `commitEpochs` prescribes (one-phase commit: `PHS`, an
+/// aborted transaction: `-`); any other order/number of header writes or syncs is a diff.
+fn trace_shape(evs: &[Ev]) -> String {
+    let mut out = String::new();
+    let (mut p, mut h, mut x) = (0usize, 0usize, 0usize);
+    let mut emit = |out: &mut String, p: &mut usize, h: &mut usize, x: &mut usize, sync: bool| {
+        if *p > 0 {
+            out.push('P');
+        }
+        out.push_str(&"H".repeat(*h));
+        out.push_str(&"X".repeat(*x));
+        if sync {
+            out.push('S');
+        }
+        (*p, *h, *x) = (0, 0, 0);
+    };
+    for e in evs {
+        match e {
+            Ev::Write { off: 0, data } if data.len() == 320 => h += 1,
+            Ev::Write { off: 0, .. } => x += 1,
+            Ev::Write { .. } => p += 1,
+            Ev::SetLen(_) => {}
+            Ev::Sync => emit(&mut out, &mut p, &mut h, &mut x, true),
+        }
+    }
+    emit(&mut out, &mut p, &mut h, &mut x, false);
+    if out.is_empty() { "-".into() } else { out }
+}
+
 fn mix(mut z: u64) -> u64 {
     z = z.wrapping_add(0x9E37_79B9_7F4A_7C15);
     z = (z ^ (z >> 30)).wrapping_mul(0xBF58_476D_1CE4_E5B9);
@@ -452,11 +487,17 @@ impl World {
             _ => return "bad-op".into(),
         };
         self.marks.push(self.backend.as_ref().unwrap().log_len());
+        // backend events of exactly this operation (its one write transaction)
+        let tr = {
+            let g = self.backend.as_ref().unwrap().0.lock().unwrap();
+            let n = self.marks.len();
+            trace_shape(&g.log[self.marks[n - 2]..self.marks[n - 1]])
+        };
         let d = self.dump(self.db.as_ref().unwrap());
         self.expect.push(d.clone());
         match res {
-            Ok(()) => format!("ok {d}"),
-            Err(e) => format!("err {} {d}", Self::err_kind(&e)),
+            Ok(()) => format!("ok {d} tr={tr}"),
+            Err(e) => format!("err {} {d} tr={tr}", Self::err_kind(&e)),
         }
     }
 
